@@ -3,6 +3,7 @@ package cacheprop
 import (
 	"errors"
 	"fmt"
+	"math"
 	"runtime/debug"
 	"sort"
 	"strings"
@@ -69,6 +70,9 @@ type stats struct {
 	resetWide, removeWide, connErrThenConnect, emptyNoti, acceptedSeen, collideSeen                  bool
 	ambiguous, latestChecked, metaDeleted, readd, elementEnc, keyed                                  bool
 	sawConnErr                                                                                       map[string]bool
+	maxBulk, maxDeleted                                                                              int
+	nearValue                                                                                        bool
+	bigDeleteWithSurvivor                                                                            bool
 }
 
 func (s *stats) labels() []string {
@@ -100,6 +104,12 @@ func (s *stats) labels() []string {
 	add(s.readd, "target-re-added")
 	add(s.elementEnc, "deprecated-element-encoding")
 	add(s.keyed, "keyed-path")
+	add(s.nearValue, "update-with-smallest-change-of-stored-value")
+	add(s.maxBulk > 32, "bulk-update>32")
+	add(s.maxBulk > 64, "bulk-update>64")
+	add(s.maxDeleted > 32, "one-delete-removed>32")
+	add(s.maxDeleted > 64, "one-delete-removed>64")
+	add(s.bigDeleteWithSurvivor, "delete-removed>32-and-left-a-matching-survivor")
 	return l
 }
 
@@ -527,7 +537,26 @@ func (w *world) build(name string, spec *Noti) *pb.Notification {
 				w.poolLen[uk] = len(p)
 			}
 		}
-		n.Update = append(n.Update, &pb.Update{Path: up, Val: u.Val.TV()})
+		val := u.Val.TV()
+		if i == 0 && rel && spec.Near && !spec.Atomic {
+			if nv := w.nearStored(name, spec); nv != nil {
+				val = nv
+				w.st.nearValue = true
+			}
+		}
+		n.Update = append(n.Update, &pb.Update{Path: up, Val: val})
+	}
+	if b := spec.Bulk; b != nil && !spec.Atomic {
+		for i := b.Start; i < b.Start+b.N; i++ {
+			p := append(append([]gn.Elem{}, b.At...), gn.Elem{Name: fmt.Sprintf("k%d", i)})
+			if b.Leaf != "" {
+				p = append(p, gn.Elem{Name: b.Leaf})
+			}
+			n.Update = append(n.Update, &pb.Update{Path: gn.Path("", "", p, spec.Element, 0), Val: gn.Val{Kind: "int", I: b.V}.TV()})
+		}
+		if b.N > w.st.maxBulk {
+			w.st.maxBulk = b.N
+		}
 	}
 	for i, d := range spec.Deletes {
 		p := d
@@ -537,6 +566,12 @@ func (w *world) build(name string, spec *Noti) *pb.Notification {
 				cut = len(first)
 			}
 			p = first[:len(first)-cut]
+			if spec.Star && cut > 0 {
+				p = append([]gn.Elem{}, p...)
+				for j := 0; j < cut; j++ {
+					p = append(p, gn.Elem{Name: "*"})
+				}
+			}
 			if len(p) == 0 && len(prefixElems) == 0 {
 				p = []gn.Elem{{Name: "*"}}
 			}
@@ -551,6 +586,61 @@ func (w *world) build(name string, spec *Noti) *pb.Notification {
 		w.st.elementEnc = true
 	}
 	return n
+}
+
+// nearStored returns the smallest change of the value stored at the leaf that
+// spec.Pick addresses (nil when that leaf holds no plain value).
+func (w *world) nearStored(name string, spec *Noti) *pb.TypedValue {
+	m := w.model[name]
+	if m == nil || len(m.leaves) == 0 || spec.Pick <= 0 {
+		return nil
+	}
+	ks := m.sortedKeys()
+	l := m.leaves[ks[(spec.Pick-1)%len(ks)]]
+	if l == nil || l.n.Atomic || len(l.n.Update) != 1 {
+		return nil
+	}
+	return nearValue(l.n.Update[0].GetVal())
+}
+
+func nearValue(tv *pb.TypedValue) *pb.TypedValue {
+	switch v := tv.GetValue().(type) {
+	case *pb.TypedValue_IntVal:
+		return &pb.TypedValue{Value: &pb.TypedValue_IntVal{IntVal: v.IntVal + 1}}
+	case *pb.TypedValue_UintVal:
+		return &pb.TypedValue{Value: &pb.TypedValue_UintVal{UintVal: v.UintVal + 1}}
+	case *pb.TypedValue_DecimalVal:
+		return &pb.TypedValue{Value: &pb.TypedValue_DecimalVal{DecimalVal: &pb.Decimal64{Digits: v.DecimalVal.GetDigits() + 1, Precision: v.DecimalVal.GetPrecision()}}}
+	case *pb.TypedValue_DoubleVal:
+		return &pb.TypedValue{Value: &pb.TypedValue_DoubleVal{DoubleVal: math.Nextafter(v.DoubleVal, math.Inf(1))}}
+	case *pb.TypedValue_FloatVal:
+		return &pb.TypedValue{Value: &pb.TypedValue_FloatVal{FloatVal: math.Nextafter32(v.FloatVal, float32(math.Inf(1)))}}
+	case *pb.TypedValue_StringVal:
+		return &pb.TypedValue{Value: &pb.TypedValue_StringVal{StringVal: v.StringVal + " "}}
+	case *pb.TypedValue_AsciiVal:
+		return &pb.TypedValue{Value: &pb.TypedValue_AsciiVal{AsciiVal: v.AsciiVal + " "}}
+	case *pb.TypedValue_BytesVal:
+		return &pb.TypedValue{Value: &pb.TypedValue_BytesVal{BytesVal: append(append([]byte{}, v.BytesVal...), 0)}}
+	case *pb.TypedValue_BoolVal:
+		return &pb.TypedValue{Value: &pb.TypedValue_BoolVal{BoolVal: !v.BoolVal}}
+	case *pb.TypedValue_JsonVal:
+		return &pb.TypedValue{Value: &pb.TypedValue_JsonVal{JsonVal: append(append([]byte{}, v.JsonVal...), ' ')}}
+	case *pb.TypedValue_JsonIetfVal:
+		return &pb.TypedValue{Value: &pb.TypedValue_JsonIetfVal{JsonIetfVal: append(append([]byte{}, v.JsonIetfVal...), ' ')}}
+	case *pb.TypedValue_LeaflistVal:
+		c := proto.Clone(tv).(*pb.TypedValue)
+		es := c.GetLeaflistVal().GetElement()
+		if len(es) == 0 {
+			return nil
+		}
+		last := nearValue(es[len(es)-1])
+		if last == nil {
+			return nil
+		}
+		es[len(es)-1] = last
+		return c
+	}
+	return nil
 }
 
 func prefixIndex(n *pb.Notification) []string {
@@ -880,6 +970,7 @@ func (w *world) interpret(i int, name string, clone *pb.Notification, m *mtarget
 		for _, d := range clone.Delete {
 			pat := append(append([]string{}, pfx...), gn.RefIndex(d, false)...)
 			var gone []string
+			survivors := 0
 			for _, k := range m.sortedKeys() {
 				if !gn.Matches(pat, gn.Unkey(k)) {
 					continue
@@ -890,7 +981,15 @@ func (w *world) interpret(i int, name string, clone *pb.Notification, m *mtarget
 				}
 				if l.ts < clone.Timestamp {
 					gone = append(gone, k)
+				} else {
+					survivors++
 				}
+			}
+			if len(gone) > w.st.maxDeleted {
+				w.st.maxDeleted = len(gone)
+			}
+			if len(gone) > 32 && survivors > 0 {
+				w.st.bigDeleteWithSurvivor = true
 			}
 			shared := map[*pb.Path]int{}
 			for _, k := range gone {
